@@ -109,6 +109,7 @@ ObsOK(o, S) ==
   /\ Chk("nonces", \A i \in DOMAIN o.nonces : Item("nonce", o.nonces[i], o.nonces[i].n = Nonce(w, o.nonces[i].a), Nonce(w, o.nonces[i].a)))
   /\ Chk("code", \A i \in DOMAIN o.code : Item("code", o.code[i], o.code[i].c = CodeObs(Code(w, o.code[i].a)), Code(w, o.code[i].a)))
   /\ Chk("cells", \A i \in DOMAIN o.cells : Item("cell", o.cells[i], o.cells[i].v = Cell(w, o.cells[i].a, o.cells[i].s), Cell(w, o.cells[i].a, o.cells[i].s)))
+  /\ Chk("probe", \A i \in DOMAIN o.probe : Item("probe", o.probe[i], o.probe[i].v = PCell(w, o.probe[i].a, o.probe[i].s), PCell(w, o.probe[i].a, o.probe[i].s)))
   /\ Chk("pool",
        {<<o.pool[i].signer, o.pool[i].nonce, o.pool[i].id>> : i \in DOMAIN o.pool}
          = {<<k[1], k[2], S.pool[k].id>> : k \in DOMAIN S.pool})
